@@ -157,7 +157,7 @@ func TestLiveFiring(t *testing.T) {
 					want[fmt.Sprintf("%s@%s", string(j.name), b.UTC().Format("15:04"))]++
 				}
 			}
-			time.Sleep(1500 * time.Millisecond) // let the timer fire and the actions run
+			time.Sleep(3 * time.Second) // let the timer fire and the actions run
 			if bi == 0 && len(bounds) == 2 {
 				// between the boundaries: flip a few more
 				for _, j := range jobs {
